@@ -348,7 +348,13 @@ class SymNum(Sym):
         return f"<{type(self).__name__} {z3.simplify(self.t)}>"
 
     def __format__(self, spec):
-        return format(self.__index__(), spec) if isinstance(self, SymInt) else repr(self)
+        if isinstance(self, SymInt):
+            if CUR is not None and not CUR.small_domain(self.t):
+                # an unbounded number rendered into text (an error message): opaque marker, no forking.  If such a
+                # text ever reaches the simulated OS as a path the strict stubs reject it (HARNESS-ERROR).
+                return "<symbolic-int>"
+            return format(self.__index__(), spec)
+        return repr(self)
 
 
 class SymInt(SymNum):
@@ -361,7 +367,7 @@ class SymInt(SymNum):
         return hash(CUR.concretize(self.t))
 
     def __str__(self):
-        return str(CUR.concretize(self.t))
+        return format(self, "")
 
     def __float__(self):
         raise HarnessError("float(SymInt) reached the C level; `float` must be shadowed in this module")
@@ -752,6 +758,23 @@ class Explorer:
             if self.branch(t == v):
                 return v.as_long()
         raise HarnessError(f"BOUND-EXCEEDED: concretisation cap {self.cap} exceeded for {t}")
+
+    def small_domain(self, t):
+        """True when term t has at most `cap` feasible values on this path (decided without forking)."""
+        t = z3.simplify(t)
+        if z3.is_int_value(t):
+            return True
+        self.solver.push()
+        try:
+            for _ in range(self.cap + 1):
+                if self._check(quick=True) != "sat":
+                    return True
+                v = self.solver.model().eval(t, model_completion=True)
+                self.solver.add(t != v)
+            return False
+        finally:
+            self.solver.pop()
+            self.model = None
 
     def pinned(self, t):
         """If term t can take only one value on this path, return it as a z3 numeral (else None)."""
